@@ -226,14 +226,14 @@ def u_assigner(weighted):
                     ('[C17]labels-so-far', BoolVal(isinstance(Lst, list) and len(Lst) == 0 and z3.is_int_value(z3.simplify(tz(i))) and z3.simplify(tz(i)).as_long() == 0) if not is_sym(conc(i)) else BoolVal(False)),
                     ('[C17]grid-counts-are-the-numbers-of-assigned-descriptors', ForAll([j_], Implies(And(0 <= j_, j_ < g), npnt.elem(j_) == 0))),
                     ('[C17]grid-weights-are-the-sums-of-the-assigned-descriptor-weights', ForAll([j_], Implies(And(0 <= j_, j_ < g), gw.elem(j_) == 0))),
-                    ('[C17]grid-weights-total-the-weights-of-the-descriptors-seen', SUMARR(lam_real(gw), g) == 0)]
+                    ] + ([('[C17]grid-weights-total-the-weights-of-the-descriptors-seen', SUMARR(lam_real(gw), g) == 0)] if weighted else [])
         LL, WW = lam_int(L), lam_real(W)
         return [('[C17]one-label-per-descriptor-seen', tz(L.shape[0]) == i),
                 ('[C17]one-count-and-one-weight-per-grid-point', And(tz(npnt.shape[0]) == g, tz(gw.shape[0]) == g)),
                 ('[C17]every-label-is-a-grid-point-nearest-to-its-descriptor', ForAll([t_, j_], Implies(And(0 <= t_, t_ < i, 0 <= j_, j_ < g), And(0 <= L.elem(t_), L.elem(t_) < g, DIST(t_, L.elem(t_)) <= DIST(t_, j_))), patterns=[z3.MultiPattern(L.elem(t_), DIST(t_, j_))])),
                 ('[C17]grid-counts-are-the-numbers-of-assigned-descriptors', ForAll([j_], Implies(And(0 <= j_, j_ < g), npnt.elem(j_) == CNTSEL(LL, i, j_)), patterns=[npnt.elem(j_)])),
                 ('[C17]grid-weights-are-the-sums-of-the-assigned-descriptor-weights', ForAll([j_], Implies(And(0 <= j_, j_ < g), gw.elem(j_) == SUMSEL(LL, WW, i, j_)), patterns=[gw.elem(j_)])),
-                ('[C17]grid-weights-total-the-weights-of-the-descriptors-seen', _stash(I, i, gw, SUMARR(lam_real(gw), g) == PSUM(WW, i)))]
+                ] + ([('[C17]grid-weights-total-the-weights-of-the-descriptors-seen', _stash(I, i, gw, SUMARR(lam_real(gw), g) == PSUM(WW, i)))] if weighted else [])
     def _stash(I, i, gw, f):
         I.cur.setdefault('gw_at', []).append((tz(i), gw)); return f
     def hints(I, Fpre, Fpost, i, gpre, gpost):
@@ -250,7 +250,7 @@ def u_assigner(weighted):
                 ('...so-their-total-grows-by-that-weight', SUMARR(lam_real(gw1), g) == SUMARR(lam_real(gw0), g) + dl)]
     def body(I):
         n, g, d = I.fresh('n', IntS), I.fresh('g', IntS), I.fresh('d', IntS); I.assume(And(n >= 1, g >= 1, d >= 1))
-        I.use_axioms('sel', sel_axioms() + total_axioms())
+        I.use_axioms('sel', sel_axioms() + (total_axioms() if weighted else []))
         I.cur = dict(g=g, n=n)
         X = I.fresh_arr('descriptors', (n, d)); G = I.fresh_arr('grid', (g, d)); w = I.fresh_arr('w', (n,))
         Xf = I.A(X).tag[1] if I.A(X).tag and I.A(X).tag[0] == 'base' else None
@@ -279,7 +279,7 @@ def u_assigner(weighted):
             I.ob('post[C17]:grid-weights-are-the-sums-of-the-assigned-descriptor-weights', I.A(o.attrs['grid_weight']).elem(j) == SUMSEL(LL, WW, n, j), kind='post')
             I.ob('post[C17]:grid-counts-are-the-numbers-of-assigned-descriptors', I.A(o.attrs['grid_npoints']).elem(j) == CNTSEL(LL, n, j), kind='post')
             I.ob('post[C17]:grid-weights-total-the-sum-of-the-descriptor-weights (one, for the normalised weights SparseKDE hands in)', SUMARR(lam_real(I.A(o.attrs['grid_weight'])), g) == PSUM(WW, n), kind='post')
-    return Unit(f'_NearestGridAssigner[{"weights" if weighted else "uniform"}]', body, loops={(q, 0): LoopContract(inv, hints=hints)}, functions=[NG + '.fit', NG + '.predict'])
+    return Unit(f'_NearestGridAssigner[{"weights" if weighted else "uniform"}]', body, loops={(q, 0): LoopContract(inv, hints=(hints if weighted else None))}, functions=[NG + '.fit', NG + '.predict'])
 
 UNITS = [lambda: u_assigner(True), lambda: u_assigner(False), lambda: u_fit(True, True), lambda: u_fit(False, False), lambda: u_fit(False, True), lambda: u_score(), lambda: u_reject()]
 RT = True
